@@ -27,6 +27,7 @@ type genTrack struct {
 	// the generator's own estimate of where the open segment of a video track began (boundary mode)
 	segStart int64
 	segKnown bool
+	auSince  int // audio-only MPEG-TS: access units written since the estimated segment start
 }
 
 func (muxerSlice) Corpus() [][]string {
@@ -54,7 +55,17 @@ func (muxerSlice) Gen(r *rand.Rand, _ int, tier string) ([]string, []string) {
 			}
 		}
 		fr := []int64{9000, 6000, 3600, 3000, 3003, 1800, 1500, 90000, 750}[r.Intn(9)]
-		return &genTrack{codec: codec, rate: 90000, frame: fr, gop: 1 + r.Intn(12), par: 1}
+		rate := 90000
+		if variant == "ts" && r.Intn(5) == 0 {
+			// MPEG-TS accepts any ClockRate (timestamps are converted to 90 kHz): a microsecond clock reaches durations
+			// that no 90 kHz stream can (e.g. a few us below a whole second)
+			rate = []int{1000000, 1000, 240000}[r.Intn(3)]
+			fr = fr * int64(rate) / 90000
+			if fr == 0 {
+				fr = 1
+			}
+		}
+		return &genTrack{codec: codec, rate: rate, frame: fr, gop: 1 + r.Intn(12), par: 1}
 	}
 	mkAudio := func() *genTrack {
 		if variant != "ts" && r.Intn(3) == 0 {
@@ -186,7 +197,7 @@ func (muxerSlice) Gen(r *rand.Rand, _ int, tier string) ([]string, []string) {
 		}
 	}
 	for i, t := range tracks {
-		if (t.codec == "h264" || t.codec == "h265") && r.Intn(5) == 0 && !exactMinus10 {
+		if (t.codec == "h264" || t.codec == "h265") && t.rate == 90000 && r.Intn(5) == 0 && !exactMinus10 {
 			plan := bfPlan
 			if t.codec == "h265" {
 				plan = bf5Plan
@@ -250,9 +261,20 @@ func (muxerSlice) Gen(r *rand.Rand, _ int, tier string) ([]string, []string) {
 		nWrites = 400 + r.Intn(1200)
 		tags = append(tags, "long")
 	}
-	if variant == "ts" && len(tracks) == 1 && tracks[0].codec == "aac" {
+	tsAudioOnly := variant == "ts" && len(tracks) == 1 && tracks[0].codec == "aac"
+	if tsAudioOnly {
 		nWrites = 130 + r.Intn(300) // audio-only MPEG-TS cuts only after 100 writes
 		tags = append(tags, "ts-audio-only-long")
+		if r.Intn(2) == 0 {
+			// a SegmentMinDuration that 100 access units do not cover, so that the duration test decides the cut
+			// (and, in boundary mode, an access unit arrives exactly when it is reached)
+			old := fmt.Sprintf("segmin=%d ", segMin)
+			segMin = []int64{2000, 4000, 8000}[r.Intn(3)] * 1000000
+			ops[0] = strings.Replace(ops[0], old, fmt.Sprintf("segmin=%d ", segMin), 1)
+			nWrites = 300 + r.Intn(500)
+			boundary = boundary || r.Intn(2) == 0
+			tags = append(tags, "ts-audio-only-duration-cut")
+		}
 	}
 	pay := 0
 	snapEvery := 1 + r.Intn(6)
@@ -327,6 +349,12 @@ func (muxerSlice) Gen(r *rand.Rand, _ int, tier string) ([]string, []string) {
 				target := t.segStart + segMin*int64(t.rate)/1000000000
 				if pts < target-1 && pts+t.frame > target-1 && r.Intn(4) != 0 {
 					pts = target + int64(r.Intn(3)) - 1
+					if t.rate >= 500000 && r.Intn(2) == 0 {
+						// a cut 1-4 ticks (us) below a whole number of seconds after the segment start
+						k := int64(1 + r.Intn(4))
+						n := (segMin*int64(t.rate)/1000000000 + k + int64(t.rate) - 1) / int64(t.rate)
+						pts = t.segStart + n*int64(t.rate) - k
+					}
 					t.nextPTS = pts
 					ntp = ntpBase + int64(float64(pts)/float64(t.rate)*1000) - int64(baseSec*1000)
 					if ntp < 0 {
@@ -405,6 +433,24 @@ func (muxerSlice) Gen(r *rand.Rand, _ int, tier string) ([]string, []string) {
 			n := 1
 			if r.Intn(4) == 0 {
 				n = 1 + r.Intn(3)
+			}
+			if tsAudioOnly && boundary {
+				au := 1024 * int64(t.rate) / int64(t.sr)
+				if !t.segKnown {
+					t.segStart, t.segKnown, t.auSince = pts, true, 0
+				}
+				target := t.segStart + segMin*int64(t.rate)/1000000000
+				if t.auSince >= 100 && pts < target-1 && pts+au > target-1 && r.Intn(4) != 0 {
+					// the access unit that arrives exactly one tick before / at / one tick after SegmentMinDuration
+					pts = target + int64(r.Intn(3)) - 1
+					t.nextPTS = pts
+					ntp = noise(ntpBase + int64(float64(pts)/float64(t.rate)*1000) - int64(baseSec*1000))
+					n = 1
+				}
+				if t.auSince >= 100 && pts*1000000000/int64(t.rate)-t.segStart*1000000000/int64(t.rate) >= segMin {
+					t.segStart, t.auSince = pts, 0
+				}
+				t.auSince += n
 			}
 			var pays, sizes, durs, tocs []string
 			total := int64(0)
